@@ -14,6 +14,9 @@ CHECKS = {
  "C05": ("explicit-state BFS over all withdrawal orders against a reference request table", "3"),
  "C06": ("explicit-state BFS with deadline-boundary time alphabet against a reference lifecycle", "3"),
  "C07": ("exhaustive fault enumeration (ack ok/err/timeout/submit failure/stray acks/recoveries) inside the BFS against a reference packet table", "3"),
+ "C08": ("per-state probe battery (14 message kinds x 14 principals + Withdraw callers) on every state of an exhaustive BFS that changes admin, monitors, staker, collector and channel", "3"),
+ "C09": ("exhaustive grid of derive_intermediate_sender against a hand-written ibc-hooks derivation (python-pinned known answer), all accepted (channel,sender) pairs for injectivity, end-to-end through the simulator's own ibc-hooks in a BFS that moves channel/staker/collector", "3"),
+ "C10": ("per-state differential probes on every state of an exhaustive BFS: the halted twin must refuse what the un-halted state accepts, storage diff of halt/resume, resume argument grid, fresh instances under 6 configurations", "3"),
  "C11": ("explicit-state BFS over reward/fee-config/withdraw histories with independent fee arithmetic", "3"),
  "C12": ("complete BFS over nominate/revoke/accept by 4 principals with 7d-1s/7d/7d+1s time moves, both contracts, in lock-step with a 3-variable reference machine", "3"),
  "C13": ("exhaustive grid: all allow-lists (<=2 routes of <=2 hops) x all candidate routes (<=3 hops) x coins x limits x senders through the real treasury execute, emitted message decoded by an independent protobuf reader", "3"),
@@ -21,7 +24,8 @@ CHECKS = {
  "C15": ("explicit-state BFS, oracle payload decoded and compared with rates recomputed from the post-state", "3"),
  "C18": ("exhaustive grid of pre-upgrade stores (legacy types) x stored versions x names x migrate messages with raw-storage diff and post-upgrade recovery in the simulator", "3"),
  "C19": ("two cargo-feature builds explore the same graphs; token-factory messages decoded by a hand-written reader; state/transition digests compared across builds", "3"),
- "C16": ("explicit-state BFS with every entry point under catch_unwind and overflow checks on", "3"),
+ "C17": ("per-state exhaustive enumeration of (start_after, limit, status) triples, cursor chasing with every page size, id lists and users on every state of the withdrawal and IBC searches, against a full-scan reference", "3"),
+ "C16": ("explicit-state BFS from fresh instances under 6 configurations with every entry point under catch_unwind (overflow checks on) plus a hostile message/query/sudo/reply/migrate battery on every state of further searches", "3"),
 }
 NA = {}
 ALL = ["C%02d" % i for i in range(1, 21)]
